@@ -57,19 +57,34 @@ impl Certificate {
 		format!("{}_{}", self.crt_name, self.key_type)
 	}
 
-	pub fn get_identifier_from_str(&self, identifier: &str) -> Result<Identifier, Error> {
+	pub fn get_identifier_from_str(
+		&self,
+		identifier: &str,
+		wildcard: bool,
+	) -> Result<Identifier, Error> {
 		let identifier = identifier.to_string();
+		let mut fallback = None;
 		for d in self.identifiers.iter() {
-			let val = match d.id_type {
-				// strip wildcards from domain before matching
-				IdentifierType::Dns => d.value.trim_start_matches("*.").to_string(),
-				IdentifierType::Ip => d.value.to_owned(),
+			match d.id_type {
+				IdentifierType::Dns => {
+					// an authorization for a wildcard name carries the base domain and the wildcard flag
+					if identifier == d.value.trim_start_matches("*.") {
+						if d.value.starts_with("*.") == wildcard {
+							return Ok(d.clone());
+						}
+						if fallback.is_none() {
+							fallback = Some(d.clone());
+						}
+					}
+				}
+				IdentifierType::Ip => {
+					if identifier == d.value {
+						return Ok(d.clone());
+					}
+				}
 			};
-			if identifier == val {
-				return Ok(d.clone());
-			}
 		}
-		Err(format!("{identifier}: identifier not found").into())
+		fallback.ok_or_else(|| format!("{identifier}: identifier not found").into())
 	}
 
 	fn renew_in(&self, cert: &X509Certificate) -> Result<Duration, Error> {
@@ -143,8 +158,9 @@ impl Certificate {
 		proof: &str,
 		raw_proof: Option<String>,
 		identifier: &str,
+		wildcard: bool,
 	) -> Result<(ChallengeHookData, HookType), Error> {
-		let identifier = self.get_identifier_from_str(identifier)?;
+		let identifier = self.get_identifier_from_str(identifier, wildcard)?;
 		let mut hook_data = ChallengeHookData {
 			challenge: identifier.challenge.to_string(),
 			identifier: identifier.value.to_owned(),
